@@ -4,7 +4,7 @@
    [round_pos N D = (q, k)] denotes the value q * 2^k in that unit (k = binary exponent + 1074). *)
 From Coq Require Import ZArith Bool List SpecFloat.
 From Verif.Base Require Import F64.
-From Verif.C12 Require Import Model Proofs.
+From Verif.C12 Require Import Model Proofs ProofsRound ProofsShortest ProofsLayout.
 Import ListNotations.
 Local Open Scope Z_scope.
 
@@ -52,27 +52,46 @@ Theorem fixed_correct : forall A B n', 0 < B ->
   (Z.abs (n * B - A) = Z.abs (n' * B - A) -> n' <= n).
 Proof. exact Proofs.rhu_nearest. Qed.
 
-(* 6. shortest: the result is one of the two neighbours floor/ceil of x*10^(n-pt) for some length n
-      (up to the 10^n -> 10^(n-1) renormalisation), it rounds back to x, and for every shorter length
-      m neither neighbour of that length rounds to x.
-      PARTIAL: not proved here (a) that a shorter decimal other than those two neighbours cannot round
-      to x (needs monotonicity of rounding), (b) that the search always succeeds within 17 digits. *)
-Theorem shortest_roundtrips_and_minimal_partial : forall fuel x N D pt d e,
-  shortest_from fuel 1 x N D pt = Some (d, e) ->
-  exists n, 1 <= n < 1 + Z.of_nat fuel /\
-    (exists c, (c = fst (fst (fst (cands N D pt n))) \/ c = fst (fst (fst (cands N D pt n))) + 1) /\
-               rounds_to x c (- (n - pt)) = true /\
-               ((e = - (n - pt) /\ d = c) \/ (e = - (n - pt) + 1 /\ c = 10 ^ n /\ d * 10 = c))) /\
-    forall m, 1 <= m < n ->
-      let lo := fst (fst (fst (cands N D pt m))) in
-      rounds_to x lo (- (m - pt)) = false /\ rounds_to x (lo + 1) (- (m - pt)) = false.
-Proof.
-  intros fuel x N D pt d e H.
-  destruct (Proofs.shortest_from_spec fuel 1 x N D pt d e ltac:(reflexivity) H) as [n [Hn [Hp Hm]]].
-  exists n. split; [exact Hn|]. split.
-  - exact (Proofs.pick_cand_sound x N D pt n d e ltac:(apply Hn) Hp).
-  - intros m Hm'. exact (Proofs.pick_cand_none x N D pt m (Hm m Hm')).
-Qed.
+(* 6. shortest, FULL: for every canonical binary64 significand/exponent (what every finite bit pattern
+      decodes to: theorem 6c) the search returns (6b), and its result d0*10^e0 has n <= 17 digits,
+      parses back to x, and NO decimal d*10^t with fewer digits -- any digits d, any exponent t --
+      parses to x (6a).  Uses monotonicity of rounding (10) and exactness on doubles (12). *)
+Theorem shortest_correct : forall s m e d0 e0, canon64 m e ->
+  shortest (S754_finite s m e) = Some (d0, e0) ->
+  let x := S754_finite false m e in
+  exists n, 1 <= n <= 17 /\ 10 ^ (n - 1) <= d0 < 10 ^ n /\
+    rounds_to x d0 e0 = true /\
+    (forall n' d t, 1 <= n' < n -> 10 ^ (n' - 1) <= d < 10 ^ n' -> rounds_to x d t = false).
+Proof. exact ProofsShortest.shortest_correct. Qed.
+
+Theorem shortest_total : forall s m e, canon64 m e -> exists r, shortest (S754_finite s m e) = Some r.
+Proof. exact ProofsShortest.shortest_total. Qed.
+
+Theorem of_bits_canonical : forall b,
+  match of_bits b with S754_finite _ m e => canon64 m e | _ => True end.
+Proof. exact ProofsLayout.of_bits_canon. Qed.
+
+(* 6d. same length: if ANY n-digit decimal rounds to x then one of the two n-digit neighbours of x
+      (floor / ceiling of x*10^(n-pt)) does, and it is at least as close; between the two neighbours
+      the nearer one is returned, the even digit on an exact tie (which cannot arise for shortest). *)
+Theorem neighbours_suffice : forall N D pt n sx mx ex d t,
+  0 < N -> 0 < D -> dec_pt N D = Some pt -> 1 <= n ->
+  round_ratio false N D = S754_finite sx mx ex ->
+  10 ^ (n - 1) <= d < 10 ^ n ->
+  rounds_to (S754_finite sx mx ex) d t = true ->
+  let lo := fst (fst (fst (cands N D pt n))) in
+  rounds_to (S754_finite sx mx ex) lo (- (n - pt)) = true \/
+  rounds_to (S754_finite sx mx ex) (lo + 1) (- (n - pt)) = true.
+Proof. exact ProofsShortest.neighbours_suffice. Qed.
+
+Theorem shortest_closest_of_neighbours : forall x N D pt n d e,
+  pick_cand x N D pt n = Some (d, e) ->
+  let '(lo, r, B, s) := cands N D pt n in
+  (rounds_to x lo (- s) = true -> rounds_to x (lo + 1) (- s) = true ->
+     (2 * r < B /\ (d, e) = norm_cand lo (- s) n) \/
+     (B < 2 * r /\ (d, e) = norm_cand (lo + 1) (- s) n) \/
+     (2 * r = B /\ (d, e) = norm_cand (if Z.even lo then lo else lo + 1) (- s) n)).
+Proof. exact ProofsLayout.pick_cand_closer. Qed.
 
 (* 7. the decimal point position used by shortest/toExponential/toPrecision is certified:
       10^(pt-1) <= N/D < 10^pt *)
@@ -90,6 +109,82 @@ Proof. exact Proofs.radix_check_sound. Qed.
 (* 9. layout: [digs n d] has exactly n digits *)
 Theorem digs_length : forall n d, 0 <= n -> zlen (digs n d) = n.
 Proof. exact Proofs.digs_length. Qed.
+
+(* 10. rounding depends on the VALUE N/D only, and is monotone in it *)
+Theorem parse_decimal_unique : forall N1 D1 N2 D2, 0 < N1 -> 0 < D1 -> 0 < N2 -> 0 < D2 ->
+  N1 * D2 = N2 * D1 -> round_pos N1 D1 = round_pos N2 D2.
+Proof. exact ProofsRound.round_pos_det. Qed.
+
+Theorem parse_decimal_monotone : forall N1 D1 N2 D2, 0 < N1 -> 0 < D1 -> 0 < N2 -> 0 < D2 ->
+  N1 * D2 <= N2 * D1 -> rval (round_pos N1 D1) <= rval (round_pos N2 D2).
+Proof. exact ProofsRound.round_pos_monotone. Qed.
+
+(* 11. hence the rationals that round to a finite double form an interval *)
+Theorem rounding_interval_convex : forall s N1 D1 N2 D2 N3 D3 sx mx ex,
+  0 < N1 -> 0 < D1 -> 0 < N2 -> 0 < D2 -> 0 < N3 -> 0 < D3 ->
+  N1 * D2 <= N2 * D1 -> N2 * D3 <= N3 * D2 ->
+  round_ratio s N1 D1 = S754_finite sx mx ex -> round_ratio s N3 D3 = S754_finite sx mx ex ->
+  round_ratio s N2 D2 = S754_finite sx mx ex.
+Proof. exact ProofsRound.round_ratio_squeeze. Qed.
+
+(* 12. a double rounds to itself (Number(String(x)) = x then follows from 6) *)
+Theorem round_ratio_exact : forall s m e, canon64 m e ->
+  round_ratio s (fst (ratio_of m e)) (snd (ratio_of m e)) = S754_finite s m e.
+Proof. exact ProofsRound.round_ratio_exact. Qed.
+
+(* 13. overflow: the result is an infinity EXACTLY from the midpoint 2^1024 - 2^970 upwards *)
+Theorem parse_decimal_overflow_iff : forall s N D, 0 < N -> 0 < D ->
+  (round_ratio s N D = S754_infinity s <-> (2 ^ 1024 - 2 ^ 970) * D <= N).
+Proof. exact ProofsRound.round_ratio_overflow_iff. Qed.
+
+(* 14. a rational within half a gap of a double rounds to it (above: gap 2^k; below: the gap to the
+       predecessor mp*2^kp, which is half as wide just above a power of two) *)
+Theorem round_up_side : forall m k Nw Dw, 0 < m < 2 ^ 53 -> 0 <= k -> (2 ^ 52 <= m \/ k = 0) ->
+  0 < Nw -> 0 < Dw ->
+  (m * 2 ^ k) * Dw <= Nw * 2 ^ 1074 ->
+  2 * (Nw * 2 ^ 1074 - (m * 2 ^ k) * Dw) < 2 ^ k * Dw ->
+  rval (round_pos Nw Dw) = m * 2 ^ k.
+Proof. exact ProofsShortest.round_up_side. Qed.
+
+Theorem round_down_side : forall m k mp kp Nw Dw, 0 < m < 2 ^ 53 -> 0 <= k ->
+  0 <= mp -> 0 <= kp -> (2 ^ 52 <= mp \/ kp = 0) -> (mp + 1) * 2 ^ kp = m * 2 ^ k ->
+  0 < Nw -> 0 < Dw ->
+  Nw * 2 ^ 1074 <= (m * 2 ^ k) * Dw ->
+  2 * ((m * 2 ^ k) * Dw - Nw * 2 ^ 1074) < 2 ^ kp * Dw ->
+  rval (round_pos Nw Dw) = m * 2 ^ k.
+Proof. exact ProofsShortest.round_down_side. Qed.
+
+(* 15. dec_pt (used by shortest / toExponential / toPrecision) is total on binary64 values *)
+Theorem dec_pt_total : forall m e, canon64 m e ->
+  exists pt, dec_pt (fst (ratio_of m e)) (snd (ratio_of m e)) = Some pt.
+Proof. exact ProofsShortest.dec_pt_total. Qed.
+
+(* 16. the layout functions, branch by branch, against ECMA-262: Number::toString steps 5-10,
+       toFixed step 10, toPrecision steps 10-13 *)
+Theorem tostring_layout_steps : forall ds n, let k := zlen ds in 1 <= k ->
+  (k <= n <= 21 -> tostring_layout ds n = ds ++ zeros (n - k)) /\
+  (0 < n <= 21 -> n < k -> tostring_layout ds n = zfirstn n ds ++ 46 :: zskipn n ds) /\
+  (-6 < n <= 0 -> tostring_layout ds n = 48 :: 46 :: zeros (- n) ++ ds) /\
+  (n <= -6 \/ 21 < n -> forall d1, ds = [d1] -> tostring_layout ds n = d1 :: exp_suffix (n - 1)) /\
+  (n <= -6 \/ 21 < n -> forall d1 d2 rest, ds = d1 :: d2 :: rest ->
+     tostring_layout ds n = d1 :: 46 :: (d2 :: rest) ++ exp_suffix (n - 1)).
+Proof. exact ProofsLayout.tostring_layout_steps. Qed.
+
+Theorem fixed_body_steps : forall n f, 0 <= f ->
+  let ds := if n =? 0 then [48] else digits_of n in
+  (f = 0 -> fixed_body n f = ds) /\
+  (0 < f -> f < zlen ds -> fixed_body n f = zfirstn (zlen ds - f) ds ++ 46 :: zskipn (zlen ds - f) ds) /\
+  (0 < f -> zlen ds <= f ->
+     let ds' := zeros (f + 1 - zlen ds) ++ ds in
+     fixed_body n f = zfirstn (zlen ds' - f) ds' ++ 46 :: zskipn (zlen ds' - f) ds').
+Proof. exact ProofsLayout.fixed_body_steps. Qed.
+
+Theorem prec_layout_steps : forall ds e p,
+  (e < -6 \/ p <= e -> prec_layout ds e p = exp_layout ds e) /\
+  (-6 <= e < p -> e = p - 1 -> prec_layout ds e p = ds) /\
+  (0 <= e < p - 1 -> prec_layout ds e p = zfirstn (e + 1) ds ++ 46 :: zskipn (e + 1) ds) /\
+  (-6 <= e < 0 -> e < p - 1 -> prec_layout ds e p = 48 :: 46 :: zeros (- (e + 1)) ++ ds).
+Proof. exact ProofsLayout.prec_layout_steps. Qed.
 
 (* ---- non-vacuity: the model on the classical hard inputs (closed computations) ---- *)
 Example ex_min_subnormal : to_bits (parse_decimal 5 (-324)) = 1.
@@ -126,7 +221,22 @@ Print Assumptions parse_decimal_wellformed.
 Print Assumptions parse_decimal_pack.
 Print Assumptions divmod_spec.
 Print Assumptions fixed_correct.
-Print Assumptions shortest_roundtrips_and_minimal_partial.
+Print Assumptions shortest_correct.
+Print Assumptions shortest_total.
+Print Assumptions of_bits_canonical.
+Print Assumptions neighbours_suffice.
+Print Assumptions shortest_closest_of_neighbours.
+Print Assumptions parse_decimal_unique.
+Print Assumptions parse_decimal_monotone.
+Print Assumptions rounding_interval_convex.
+Print Assumptions round_ratio_exact.
+Print Assumptions parse_decimal_overflow_iff.
+Print Assumptions round_up_side.
+Print Assumptions round_down_side.
+Print Assumptions dec_pt_total.
+Print Assumptions tostring_layout_steps.
+Print Assumptions fixed_body_steps.
+Print Assumptions prec_layout_steps.
 Print Assumptions dec_pt_sound.
 Print Assumptions radix_check_sound.
 Print Assumptions digs_length.
